@@ -8,6 +8,7 @@ use serde_json::{json, Value};
 use std::collections::HashMap;
 
 pub const NAMES: [&str; 5] = ["k1", "k2", "k3", "kx", "k5"];
+/// "ku": an authorised key whose signature scheme the library does not implement (the material of k5)
 
 pub struct Ctx {
     pub km: KeyMap,
@@ -19,7 +20,10 @@ pub struct Ctx {
 
 impl Ctx {
     pub fn new(family: &str) -> Ctx {
-        Ctx { km: KeyMap::new(family, &NAMES), content: simple_link("c04"), cache: HashMap::new(), bad_count: 0 }
+        let mut km = KeyMap::new(family, &NAMES);
+        let ku = km.unknown_scheme_twin("k5");
+        km.add_public("ku", ku);
+        Ctx { km, content: simple_link("c04"), cache: HashMap::new(), bad_count: 0 }
     }
 
     fn sig_value(&mut self, by: &str, fresh: bool) -> Vec<u8> {
@@ -47,9 +51,20 @@ impl Ctx {
             let mut v = self.sig_value(by, *n > 1);
             if !s["ok"].as_bool().unwrap() {
                 self.bad_count += 1;
-                if self.bad_count % 2 == 0 {
+                // the forms an invalid signature takes, in turn: one bit flipped; empty; last byte missing;
+                // all zero; a byte too long; genuine but over another content (replayed)
+                let form = self.bad_count % 6;
+                if form == 0 {
                     let i = v.len() / 2;
                     v[i] ^= 0x04;
+                } else if form == 1 {
+                    v.clear();
+                } else if form == 2 {
+                    v.pop();
+                } else if form == 3 {
+                    v.iter_mut().for_each(|b| *b = 0);
+                } else if form == 4 {
+                    v.push(0x01);
                 } else {
                     // a genuine signature by this key over ANOTHER content - which has been verified
                     // successfully in this very process just before (a replayed signature)
